@@ -55,6 +55,7 @@ def entry_hooks(ctx, vm, events):
             # cls(schema, *args, **kwargs): a new validator (own resolver) for that schema
             s = st.fork()
             s.ghost["events"] = s.ghost.get("events", ()) + ("construct",)
+            s.ghost["constructed_d"] = f.d
             s.heap[(vm.validator.oid, "schema")] = args[0]
             if kwargs or len(args) > 1:
                 s.ghost["ctor_extra"] = True
